@@ -1,3 +1,5 @@
+import BlockCiphers.Proofs.GiftConf
+import BlockCiphers.Proofs.GenTables
 import BlockCiphers.Proofs.Rc5Spec
 import BlockCiphers.Proofs.SpeckKeys
 import BlockCiphers.Proofs.ThreefishSpec
@@ -6,8 +8,90 @@ import BlockCiphers.Proofs.Threefish
 C10 — RC5, Speck, Threefish and GIFT-128 conform for every parameterisation
 GENERATED statement file (tools/gen_thm.py): every theorem below restates, verbatim, a theorem of a Proofs/ module
 and is proved by applying it.  ONLY property theorems and non-vacuity examples live in Thm/.
-RC5, Speck, Threefish: full.  GIFT-128: added when Proofs/Gift* are merged.
+RC5, Speck, Threefish, GIFT-128 (fixsliced implementation = the CHES 2017 bit-permutation specification, all keys and blocks): full.
+Every constant table of the four crates as it is in /repo now = the table of the model (GenTables).
 -/
+
+namespace BC.Gift.Conf
+open BC.Gift
+open BC.Spec.Gift (keyU keyV keyAt constAt lfsr step)
+/-- the Rust's `encrypt_block` after `KeyInit::new(key)` is GIFT-128 encryption of the paper: all keys, all blocks -/
+theorem C10.gift_encrypt_eq_spec (key b : BitVec 128) :
+    encrypt (precomputeRkeys key) b = BC.Spec.Gift.encrypt key b :=
+  _root_.BC.Gift.Conf.encrypt_eq_spec key b
+end BC.Gift.Conf
+
+namespace BC.Gift.Conf
+open BC.Gift
+open BC.Spec.Gift (keyU keyV keyAt constAt lfsr step)
+/-- the Rust's `decrypt_block` after `KeyInit::new(key)` is GIFT-128 decryption: all keys, all blocks -/
+theorem C10.gift_decrypt_eq_spec (key y : BitVec 128) :
+    decrypt (precomputeRkeys key) y = BC.Spec.Gift.decrypt key y :=
+  _root_.BC.Gift.Conf.decrypt_eq_spec key y
+end BC.Gift.Conf
+
+namespace BC.Gift.Conf
+open BC.Gift
+open BC.Spec.Gift (keyU keyV keyAt constAt lfsr step)
+theorem C10.gift_spec_decrypt_encrypt (key b : BitVec 128) : BC.Spec.Gift.decrypt key (BC.Spec.Gift.encrypt key b) = b :=
+  _root_.BC.Gift.Conf.spec_decrypt_encrypt key b
+end BC.Gift.Conf
+
+namespace BC.Gift.Conf
+open BC.Gift
+open BC.Spec.Gift (keyU keyV keyAt constAt lfsr step)
+/-- the spec's decryption inverts the spec's encryption, and vice versa -/
+theorem C10.gift_spec_encrypt_decrypt (key y : BitVec 128) : BC.Spec.Gift.encrypt key (BC.Spec.Gift.decrypt key y) = y :=
+  _root_.BC.Gift.Conf.spec_encrypt_decrypt key y
+end BC.Gift.Conf
+
+namespace BC.GenTables
+open BC.Gen
+theorem C10.threefish_R256_eq : threefish_R256.toList = (BC.Threefish.R256.toList.map nats8).flatten :=
+  _root_.BC.GenTables.threefish_R256_eq
+end BC.GenTables
+
+namespace BC.GenTables
+open BC.Gen
+theorem C10.threefish_R512_eq : threefish_R512.toList = (BC.Threefish.R512.toList.map nats8).flatten :=
+  _root_.BC.GenTables.threefish_R512_eq
+end BC.GenTables
+
+namespace BC.GenTables
+open BC.Gen
+theorem C10.threefish_R1024_eq : threefish_R1024.toList = (BC.Threefish.R1024.toList.map nats8).flatten :=
+  _root_.BC.GenTables.threefish_R1024_eq
+end BC.GenTables
+
+namespace BC.GenTables
+open BC.Gen
+theorem C10.threefish_P256_eq : threefish_P256.toList = nats8 BC.Threefish.P256 :=
+  _root_.BC.GenTables.threefish_P256_eq
+end BC.GenTables
+
+namespace BC.GenTables
+open BC.Gen
+theorem C10.threefish_P512_eq : threefish_P512.toList = nats8 BC.Threefish.P512 :=
+  _root_.BC.GenTables.threefish_P512_eq
+end BC.GenTables
+
+namespace BC.GenTables
+open BC.Gen
+theorem C10.threefish_P1024_eq : threefish_P1024.toList = nats8 BC.Threefish.P1024 :=
+  _root_.BC.GenTables.threefish_P1024_eq
+end BC.GenTables
+
+namespace BC.GenTables
+open BC.Gen
+theorem C10.threefish_C240_eq : threefish_C240 = BC.Threefish.C240.toNat :=
+  _root_.BC.GenTables.threefish_C240_eq
+end BC.GenTables
+
+namespace BC.GenTables
+open BC.Gen
+theorem C10.gift_GIFT_RC_eq : gift_GIFT_RC.toList = nats32 BC.Gift.GIFT_RC :=
+  _root_.BC.GenTables.gift_GIFT_RC_eq
+end BC.GenTables
 
 namespace BC.Rc5
 open BC
